@@ -29,7 +29,7 @@ struct SinkPlan {
     int64_t enospc_at_byte = -1;  // sink accepts bytes below this offset, then short write + error forever
     bool close_fail = false;      // cookie close returns error
     bool flush_fail = false;      // the write issued from inside fflush/fclose fails
-    int vbuf_mode = 0;            // 0 default, 1 unbuffered, 2 full with vbuf_size
+    int vbuf_mode = 0;            // 0 default, 1 unbuffered, 2 full with vbuf_size, 3 line-buffered with vbuf_size
     size_t vbuf_size = 0;
 };
 struct SrcPlan {
